@@ -155,9 +155,11 @@ def r1_5_header(ctx, prog):
     c02.r2_5_constants(ctx, prog, rule="R1.5")
 
 
-def r1_6_nested_padding(ctx, prog):
-    ctx.rule("R1.6", "nested TLV padding agreement (PASSWORD-ALGORITHMS): both encoder and decoder pad per entry - the argument of "
-                     "padding() is the size of the entry just encoded / decoded, never an accumulated size")
+def r1_6_nested_padding(ctx, prog, rule="R1.6"):
+    ctx.rule(rule, "nested TLV padding agreement (PASSWORD-ALGORITHMS): both encoder and decoder pad per entry - the argument of "
+                   "padding() is the size of the entry just encoded / decoded, never an accumulated size; the encoder fills "
+                   "exactly the padding(len) bytes that follow the entry it has just written (start = entry start + len) with "
+                   "the configured padding value")
     pa_t = "stun_rs::attributes::stun::password_algorithms::PasswordAlgorithms"
     for side, tr, callee in (("decode", "DecodeAttributeValue", "decode"), ("encode", "EncodeAttributeValue", "encode")):
         b = prog.body("<%s as stun_rs::attributes::%s>::%s" % (pa_t, tr, side))
@@ -179,8 +181,41 @@ def r1_6_nested_padding(ctx, prog):
                 return isinstance(node[0], str) and node[0].endswith("::%s" % callee) and "PasswordAlgorithm" in node[0]
             return False
         bad = [k for k, t in args.items() if not entry_size(t)]
-        ctx.ob("R1.6", "padding-argument:%s" % side, bool(args) and not bad,
+        ctx.ob(rule, "padding-argument:%s" % side, bool(args) and not bad,
                "padding() is applied to %s%s" % (sorted(x[:60] for x in args), (" - not an entry size: %s" % bad[0][:100]) if bad else ""), b.where())
+        if side != "encode":
+            continue
+        # where the padding bytes are written, per loop iteration (raw call-time arguments: exact within an iteration)
+        from .. import shared
+        seen = {}
+        for pa in paths:
+            for seg in shared.segments(pa.log, b.path)[1:]:
+                calls = [e for e in seg if e[0] == "call"]
+                fills = [e for e in calls if re.search(r"common::fill_padding_value$", e[1])]
+                if not fills:
+                    continue
+                ix = [e for e in calls if re.search(r"::index_mut$", e[1])]
+                enc = [e for e in calls if re.search(r"PasswordAlgorithm as stun_rs::attributes::EncodeAttributeValue>::encode$|PasswordAlgorithm.*::encode$", e[1])]
+                pads = [e for e in calls if re.search(r"^stun_rs::common::padding$", e[1])]
+                pval = [e for e in calls if re.search(r"EncoderContext::padding$", e[1])]
+                ok = len(fills) == 1 and len(ix) == 2 and len(enc) == 1 and len(pads) == 1 and len(pval) == 1
+                why = "%d fill, %d index_mut, %d nested encode, %d padding()" % (len(fills), len(ix), len(enc), len(pads))
+                if ok:
+                    atom = "top:%s.ok" % enc[0][4]
+                    x1, x2 = ix[0][2][1], ix[1][2][1]
+                    f = fills[0][2]
+                    ok = isinstance(x1, tuple) and x1[0] == "RangeFrom" and isinstance(x2, tuple) and x2[0] == "RangeFrom" \
+                        and x2[1] == ("op:Add", x1[1], atom) and pads[0][2] == (atom,) \
+                        and isinstance(f[0], tuple) and f[0][1] == "top:%s.*" % ix[1][4] and f[1] == "top:%s" % pads[0][4] and f[2] == "top:%s" % pval[0][4]
+                    why = "entry at %s.., padding filled at %s.. for %s byte(s) with %s" % (
+                        str(x1[1])[:30], "entry start + len" if x2[1] == ("op:Add", x1[1], atom) else str(x2[1])[:120],
+                        "padding(len)" if f[1] == "top:%s" % pads[0][4] else str(f[1])[:60], "the configured value" if f[2] == "top:%s" % pval[0][4] else str(f[2])[:60])
+                k = "fill:start=%s" % ("0" if ok and x1[1] == 0 else "widened" if ok else "bad")
+                if k not in seen or not ok:
+                    seen[k] = (ok, why, pa)
+        for k, (ok, why, pa) in sorted(seen.items()):
+            ctx.ob(rule, "padding-%s" % k, ok, why, b.where(), replay=None if ok else pa.describe())
+        ctx.floor(rule, "iterations with inner padding", len(seen), 1)
 
 
 def check(ctx, env):
@@ -212,6 +247,9 @@ def check(ctx, env):
     r1_3_r1_4(ctx, env.prog("full"))
     r1_5_header(ctx, env.prog("full"))
     r1_6_nested_padding(ctx, env.prog("full"))
+    from . import c02 as _c02
+    _c02.r2_6_address_layout(ctx, env.prog("full"), rule="R1.8")     # writer / reader agreement of the shared address codec
+    _c02.r2_7_u16_list(ctx, env.prog("full"), rule="R1.9")           # writer / reader agreement of the 16-bit list
     from . import c02
     c02.r2_3_layouts(ctx, env.prog("full"), rule="R1.7")
     ctx.extra["configs_checked"] = configs if len(configs) < 6 else "%d feature configurations" % len(configs)
